@@ -23,8 +23,9 @@ witnesses (seed applied only after parsing; seed tested for truthiness) -/
 structure Variant where
   seedAtParse : Bool      -- `--seed` seeds the generator as soon as it is parsed (D2 repaired)
   zeroIsSeed : Bool       -- `args.seed is not None` rather than `if args.seed:` (D1 repaired)
+  reseedBeforeBuild : Bool := true   -- `random.seed(args.seed)` again just before `build_formula`
 
-def current : Variant := ⟨true, true⟩
+def current : Variant := ⟨true, true, true⟩
 
 /-- a command line, abstracted to what matters for the generator: the optional seed, how many draws
 the graph arguments make while the command line is parsed, how many the formula generator and the
@@ -64,10 +65,15 @@ def run {S : Type} (g : Gen S) (v : Variant) (c : Cmd) (env : Env S) : Observed 
   let (pv, s2) := draws g c.parseDraws s1
   -- `if args.seed is not None: random.seed(args.seed)`
   let eff := effective v c.seed
-  let s3 := match eff with | some s => g.seedTo s | none => s2
+  let s3 := if v.reseedBeforeBuild then (match eff with | some s => g.seedTo s | none => s2) else s2
   let (bv, _) := draws g c.buildDraws s3
   { parseVals := pv, buildVals := bv, headerSeed := eff,
     headerAddr := if c.printsObject then some env.addr else none }
+
+/-- number of `random.seed` calls an observer of the generator sees during a run -/
+def seedEvents (v : Variant) (c : Cmd) : Nat :=
+  (if c.seed.isSome && v.seedAtParse then 1 else 0) +
+  (if v.reseedBeforeBuild && (effective v c.seed).isSome then 1 else 0)
 
 /-- what an observer of the generator sees first: is the first event `seed s`, and how many draws
 precede the first seeding (the graph arguments' draws, if the seed is applied only after parsing) -/
